@@ -30,6 +30,11 @@ def plotly_rows(part, id1, id2, maxd=0, named=False, d=0):
     if named:
         kw["input_cols"] = ["col%d" % i for i in range(d)]
     df = part.to_plotly_dataframe(tree_id1=IDN[id1], tree_id2=IDN[id2] if id2 else None, **kw)
+    return rows_of(df, kw.get("input_cols"), bool(id2))
+
+
+def rows_of(df, names, has_id2):
+    """the rows of a plotly view in the specification's vocabulary; names: the column labels the splits must carry (None: 'ax <i>')"""
     pos = {}
     rows = []
     for k, r in enumerate(df.to_dict("records"), start=1):
@@ -39,18 +44,29 @@ def plotly_rows(part, id1, id2, maxd=0, named=False, d=0):
             side, paxis = "root", -1
         else:
             parts = name.split()
-            if named:
-                if not parts[0].startswith("col"):
-                    raise AssertionError("split not labelled with the given column name: %r" % name)
-                paxis, op = int(parts[0][3:]), parts[1]
+            if names is not None:
+                lab = [str(c) for c in names]
+                if parts[0] not in lab:
+                    raise AssertionError("split not labelled with a column name: %r (columns %r)" % (name, lab))
+                paxis, op = lab.index(parts[0]), parts[1]
             else:
                 paxis, op = int(parts[1]), parts[2]
             side = "le" if op == "<=" else "gt"
         rows.append({"parent": pos.get(r["parent_idx"], 0) if r["parent_idx"] is not None else 0,
                      "depth": int(r["depth"]), "cell": int(r["cell_count"]), "side": side, "paxis": paxis,
-                     "diff": int(r["count_diff"]) if id2 else 0})
-    kss = [num(v) for v in df["kss"]] if id2 else []
+                     "diff": int(r["count_diff"]) if has_id2 else 0})
+    kss = [num(v) for v in df["kss"]] if has_id2 else []
     return rows, kss
+
+
+def detector_view(det, take):
+    """the detector's own to_plotly_dataframe() (reference vs test counts), in the specification's vocabulary; [] when not taken"""
+    if not take or getattr(det, "_kdqtree", True) is None:
+        return False, []
+    cols = getattr(det, "_input_cols", None)
+    df = det.to_plotly_dataframe()
+    rows, _ = rows_of(df, list(cols) if cols is not None else None, True)
+    return True, rows
 
 
 def session(cfgp, script):
@@ -238,8 +254,9 @@ def run_stream(p, xs, resets=(), seed=0):
                 lo, hi = bracket(epoch, p["count_ubound"], lb, p["window_size"], p["alpha"], p["bootstrap_samples"], seed + t)
                 c["lo"], c["hi"] = num(lo), num(hi)
                 have_ref = True
+        viewed, view = detector_view(det, (t * 2654435761 + seed) % 11 == 0)
         ev.append({"op": "update", "x": list(x), "total": int(det.total_samples), "since": int(det.samples_since_reset),
-                   "state": st(det.drift_state), "dist": _dist(det), "c": c})
+                   "state": st(det.drift_state), "dist": _dist(det), "c": c, "viewed": viewed, "view": view})
     cfg = {"kind": "stream", "W": p["window_size"], "pers": num(p["persistence"]), "ub": p["count_ubound"],
            "lbnum": p["lbnum"], "lbden": p["lbden"]}
     return {"cfg": cfg, "ev": ev, "params": p, "xs": [list(x) for x in xs], "resets": list(resets), "seed": seed}
@@ -292,9 +309,10 @@ def run_batch(p, batches, setrefs=(), first_is_reference=True, seed=0, resets=()
         elif no_tree:
             lo, hi = br(b, seed + t)
             c0 = {"crit": _crit(det), "lo": lo, "hi": hi}
+        viewed, view = detector_view(det, (t + seed) % 2 == 0)
         ev.append({"op": "update", "data": b, "total": int(det.total_batches), "since": int(det.batches_since_reset),
                    "state": st(det.drift_state), "dist": _dist(det) if not no_tree else "NA",
-                   "c": {"crit": _crit(det), "lo": "None", "hi": "None"}, "c0": c0})
+                   "c": {"crit": _crit(det), "lo": "None", "hi": "None"}, "c0": c0, "viewed": viewed, "view": view})
         prev = b
     cfg = {"kind": "batch", "W": 0, "pers": "0.0", "ub": p["count_ubound"], "lbnum": p["lbnum"], "lbden": p["lbden"]}
     return {"cfg": cfg, "ev": ev, "params": p, "batches": batches, "setrefs": list(setrefs),
